@@ -109,7 +109,7 @@ def check_render(ctx, h, doc, cfg_desc, config):
             elif used and len(cells) < max(used) + 1:
                 V("cells", f"{d}-cell-missing-for-linked-port", {"node": n.idx, "cells": len(cells), "max_used": max(used)})
             elif len(cells) > max(cap, max(used) + 1 if used else 0):
-                V("cells", f"{d}-more-cells-than-ports", {"node": n.idx, "cells": len(cells), "ports": cap})
+                V("cells", f"{d}-more-cells-than-ports", {"node": n.idx, "op": doc["nodes"][rank[n.idx]].get("op"), "cells": len(cells), "ports": cap})
     have_clusters = {f"cluster{n.idx}" for n in live if h.children(n)}
     if set(g["clusters"]) != have_clusters:
         V("cluster", "cluster-set", {"missing": sorted(have_clusters - set(g["clusters"])), "extra": sorted(set(g["clusters"]) - have_clusters)})
